@@ -365,134 +365,146 @@ def run(a, res):
         res.count("hostile_responses_sent")
         return resp
 
-    conf = (f"cache_mem 32 MB\nmaximum_object_size_in_memory 1 MB\nrequest_header_max_size 16 KB\nreply_header_max_size 16 KB\n"
-            "dns_timeout 1 seconds\nconnect_timeout 2 seconds\nclient_request_buffer_max_size 256 KB\nrange_offset_limit 1 MB\n")
-    lab = Lab(a, res, handler=handler, conf=conf)
-    lab.crash_is_violation = True
-    sq = lab.sq
-    stats_lock = threading.Lock()
-
-    def hostile_client(data, splits, delay, wait=5.0, idle=0.3):
-        """send the bytes; read until EOF, or until squid has been silent for `idle` s after its first bytes / for 2 s
-        without any; then half-close (squid drops half-closed clients, so not earlier) and wait for EOF.
-        returns (nbytes received, ended?, first bytes)"""
-        try:
-            conn = Conn(sq.port, timeout=5)
-        except OSError:
-            return -1, False, b""
-        conn.send(data, splits, delay)
-        t0 = time.time()
-        while not conn.eof and time.time() - t0 < wait:
-            before = len(conn.raw_in)
-            conn._fill(idle if before else 1.5)
-            if len(conn.raw_in) == before and not conn.eof:
-                break
-        if not conn.eof:
-            conn.shutdown_wr()
-            conn.wait_eof(wait)
-        got = conn.raw_in
-        ended = conn.eof
-        if not ended:
-            conn.rst()
-        else:
-            conn.close()
-        return len(got), ended, got[:16]
-
-    def one(c):
-        key = f"/c09/{c['seed']}/{c['n']}"
-        ctx = {"hostport": f"127.0.0.1:{lab.org.port}", "port": lab.org.port, "sqport": sq.port, "path": key, "req_id": f"{c['seed']}.{c['n']}.c"}
-        c["_ctx"] = ctx
-        table[key] = c
-        r = random.Random(c["gseed"])
-        outcomes = []
-        if c["side"] in ("client", "both"):
-            if c["side"] == "both":
-                ctx = dict(ctx, req_id=f"{c['seed']}.{c['n']}.o")     # the origin answers this one with a hostile stream, too
-            data = gen_request_stream(r, ctx)
-            pts = sorted({r.randrange(1, len(data)) for _ in range(c["nsplits"])}) if len(data) > 1 else []
-            delay = c["delay"]
-            if r.random() < 0.4:
-                # a read boundary exactly between a request head and what follows it (its body or the next request)
-                i = data.find(b"\r\n\r\n")
-                if 0 < i + 4 < len(data):
-                    pts = sorted(set(pts) | {i + 4})
-                    delay = max(delay, 0.02)
-            n, ended, head = hostile_client(data, pts, delay)
-            res.count("hostile_request_streams")
-            res.count("hostile_request_bytes", len(data))
-            outcomes.append(("client", "ended" if ended else "open", head[9:12].decode("latin1") if head.startswith(b"HTTP/") else ("silent" if n == 0 else "other")))
-        if c["side"] == "origin":
-            for which in (["o", "o2"] if c["refetch"] else ["o"]):
-                rid = f"{c['seed']}.{c['n']}.{which}"
-                hs = [("Connection", "close")]
-                m, body = "GET", None
-                if c["client_req"] == "HEAD":
-                    m = "HEAD"
-                elif c["client_req"] == "RANGE":
-                    hs.append(("Range", r.choice(["bytes=0-0", "bytes=5-", "bytes=-7", "bytes=0-0,5-9", "bytes=100-200,0-5", "bytes=70000-"])))
-                elif c["client_req"] == "COND":
-                    hs.append(r.choice([("If-None-Match", '"e1"'), ("If-Modified-Since", http_date(time.time() - 3600)), ("If-None-Match", "*"), ("If-Range", '"e0"')]))
-                    if r.random() < 0.3:
-                        hs.append(("Range", "bytes=0-9"))
-                elif c["client_req"] == "POST":
-                    m, body = "POST", b"x" * 100
-                if r.random() < 0.2:
-                    hs.append(("Accept-Encoding", r.choice(["gzip", "identity", "*"])))
-                n, ended, head = hostile_client(request_bytes(m, lab.url(key), hs, body, "HTTP/1.1", rid), [], 0)
-                outcomes.append(("origin", "ended" if ended else "open", head[9:12].decode("latin1") if head.startswith(b"HTTP/") else ("silent" if n == 0 else "other")))
-        for o in outcomes:
-            res.count(f"conn_{o[0]}_{o[1]}")
-            if o[1] == "open":
-                res.count("connections_open_after_wait")
-        res.feature(c["side"], c["client_req"] if c["side"] == "origin" else None, min(c["nsplits"], 3), tuple(outcomes))
-
-    def probe(tag):
-        rid = f"{a.seed}.probe.{tag}.p"
-        for attempt in range(2):
-            try:
-                m = lab.fetch("GET", f"/c09probe/{a.seed}/{tag}/{attempt}", req_id=rid + str(attempt), timeout=15)
-                if m.start is not None and m.status == 200 and m.complete and lab.at_origin(rid + str(attempt)):
-                    return True
-            except OSError:
-                pass
-            time.sleep(0.5)
-        return False
-
     if a.replay_data and "case" in a.replay_data:
-        cases = [gen_case(a.replay_data.get("seed", a.seed), a.replay_data["case"])]
+        all_cases = [gen_case(a.replay_data.get("seed", a.seed), a.replay_data["case"])]
     elif a.replay_data and "batch" in a.replay_data:
         s = a.replay_data.get("seed", a.seed)
-        cases = [gen_case(s, n) for n in range(a.replay_data["batch"] * BATCH, (a.replay_data["batch"] + 1) * BATCH)]
+        all_cases = [gen_case(s, n) for n in range(a.replay_data["batch"] * BATCH, (a.replay_data["batch"] + 1) * BATCH)]
     else:
-        cases = [gen_case(a.seed, n) for n in range(a.cases)]
-    try:
-        if not probe("start"):
-            raise RuntimeError("initial health probe failed: " + sq.tail_log())
-        with ThreadPoolExecutor(8) as ex:
-            for b0 in range(0, len(cases), BATCH):
-                batch = cases[b0:b0 + BATCH]
-                bno = batch[0]["n"] // BATCH
-                wit = {"seed": batch[0]["seed"], "batch": bno} if len(batch) > 1 else {"seed": batch[0]["seed"], "case": batch[0]["n"]}
-                for c in batch:
-                    res.case({k: v for k, v in c.items() if not k.startswith("_")} if c["n"] % 211 == 0 else None)
-                list(ex.map(one, batch))
-                res.count("batches")
-                healthy = lab.check_health(wit)
-                if sq.alive() and not probe(f"b{bno}"):
-                    healthy = False
-                    res.violation("health-probe-failed", f"an ordinary GET through squid failed twice after batch {bno} (cases {batch[0]['n']}..{batch[-1]['n']}) although the process is alive: {sq.tail_log(600)}", wit)
-                elif sq.alive():
-                    res.count("health_probes_ok")
-                if not sq.alive():
-                    res.count("squid_restarts")
-                    sq.stop()
-                    sq.start(init=False)
-                    if not probe(f"r{bno}"):
-                        raise RuntimeError("squid does not serve after a restart: " + sq.tail_log())
-    finally:
-        fwd = {q.req_id for q in lab.org.requests if q.req_id and q.req_id.endswith((".c", ".o")) and q.req_id.split(".")[-2].isdigit()}
-        res.count("hostile_request_streams_with_a_forwarded_request", len({x for x in fwd if x.endswith(".c")}) + len({x for x in fwd if x.endswith(".o") and table.get("/c09/%s/%s" % tuple(x.split(".")[:2]), {}).get("side") == "both"}))
-        lab.finish()
+        all_cases = [gen_case(a.seed, n) for n in range(a.cases)]
+
+    def run_with(pf, cases):
+        conf = (f"cache_mem 32 MB\nmaximum_object_size_in_memory 1 MB\nrequest_header_max_size 16 KB\nreply_header_max_size 16 KB\n"
+                "dns_timeout 1 seconds\nconnect_timeout 2 seconds\nclient_request_buffer_max_size 256 KB\nrange_offset_limit 1 MB\n"
+                f"pipeline_prefetch {pf}\n")
+        lab = Lab(a, res, handler=handler, conf=conf)
+        lab.crash_is_violation = True
+        sq = lab.sq
+        stats_lock = threading.Lock()
+
+        def hostile_client(data, splits, delay, wait=5.0, idle=0.3):
+            """send the bytes; read until EOF, or until squid has been silent for `idle` s after its first bytes / for 2 s
+            without any; then half-close (squid drops half-closed clients, so not earlier) and wait for EOF.
+            returns (nbytes received, ended?, first bytes)"""
+            try:
+                conn = Conn(sq.port, timeout=5)
+            except OSError:
+                return -1, False, b""
+            conn.send(data, splits, delay)
+            t0 = time.time()
+            while not conn.eof and time.time() - t0 < wait:
+                before = len(conn.raw_in)
+                conn._fill(idle if before else 1.5)
+                if len(conn.raw_in) == before and not conn.eof:
+                    break
+            if not conn.eof:
+                conn.shutdown_wr()
+                conn.wait_eof(wait)
+            got = conn.raw_in
+            ended = conn.eof
+            if not ended:
+                conn.rst()
+            else:
+                conn.close()
+            return len(got), ended, got[:16]
+
+        def one(c):
+            key = f"/c09/{c['seed']}/{c['n']}"
+            ctx = {"hostport": f"127.0.0.1:{lab.org.port}", "port": lab.org.port, "sqport": sq.port, "path": key, "req_id": f"{c['seed']}.{c['n']}.c"}
+            c["_ctx"] = ctx
+            table[key] = c
+            r = random.Random(c["gseed"])
+            outcomes = []
+            if c["side"] in ("client", "both"):
+                if c["side"] == "both":
+                    ctx = dict(ctx, req_id=f"{c['seed']}.{c['n']}.o")     # the origin answers this one with a hostile stream, too
+                data = gen_request_stream(r, ctx)
+                pts = sorted({r.randrange(1, len(data)) for _ in range(c["nsplits"])}) if len(data) > 1 else []
+                delay = c["delay"]
+                if r.random() < 0.4:
+                    # a read boundary exactly between a request head and what follows it (its body or the next request)
+                    i = data.find(b"\r\n\r\n")
+                    if 0 < i + 4 < len(data):
+                        pts = sorted(set(pts) | {i + 4})
+                        delay = max(delay, 0.02)
+                n, ended, head = hostile_client(data, pts, delay)
+                res.count("hostile_request_streams")
+                res.count("hostile_request_bytes", len(data))
+                outcomes.append(("client", "ended" if ended else "open", head[9:12].decode("latin1") if head.startswith(b"HTTP/") else ("silent" if n == 0 else "other")))
+            if c["side"] == "origin":
+                for which in (["o", "o2"] if c["refetch"] else ["o"]):
+                    rid = f"{c['seed']}.{c['n']}.{which}"
+                    hs = [("Connection", "close")]
+                    m, body = "GET", None
+                    if c["client_req"] == "HEAD":
+                        m = "HEAD"
+                    elif c["client_req"] == "RANGE":
+                        hs.append(("Range", r.choice(["bytes=0-0", "bytes=5-", "bytes=-7", "bytes=0-0,5-9", "bytes=100-200,0-5", "bytes=70000-"])))
+                    elif c["client_req"] == "COND":
+                        hs.append(r.choice([("If-None-Match", '"e1"'), ("If-Modified-Since", http_date(time.time() - 3600)), ("If-None-Match", "*"), ("If-Range", '"e0"')]))
+                        if r.random() < 0.3:
+                            hs.append(("Range", "bytes=0-9"))
+                    elif c["client_req"] == "POST":
+                        m, body = "POST", b"x" * 100
+                    if r.random() < 0.2:
+                        hs.append(("Accept-Encoding", r.choice(["gzip", "identity", "*"])))
+                    n, ended, head = hostile_client(request_bytes(m, lab.url(key), hs, body, "HTTP/1.1", rid), [], 0)
+                    outcomes.append(("origin", "ended" if ended else "open", head[9:12].decode("latin1") if head.startswith(b"HTTP/") else ("silent" if n == 0 else "other")))
+            for o in outcomes:
+                res.count(f"conn_{o[0]}_{o[1]}")
+                if o[1] == "open":
+                    res.count("connections_open_after_wait")
+            res.feature(c["side"], c["client_req"] if c["side"] == "origin" else None, min(c["nsplits"], 3), tuple(outcomes))
+
+        def probe(tag):
+            rid = f"{a.seed}.probe.{tag}.p"
+            for attempt in range(2):
+                try:
+                    m = lab.fetch("GET", f"/c09probe/{a.seed}/{tag}/{attempt}", req_id=rid + str(attempt), timeout=15)
+                    if m.start is not None and m.status == 200 and m.complete and lab.at_origin(rid + str(attempt)):
+                        return True
+                except OSError:
+                    pass
+                time.sleep(0.5)
+            return False
+
+        try:
+            if not probe(f"start{pf}"):
+                raise RuntimeError("initial health probe failed: " + sq.tail_log())
+            with ThreadPoolExecutor(8) as ex:
+                for b0 in range(0, len(cases), BATCH):
+                    batch = cases[b0:b0 + BATCH]
+                    bno = batch[0]["n"] // BATCH
+                    wit = {"seed": batch[0]["seed"], "batch": bno} if len(batch) > 1 else {"seed": batch[0]["seed"], "case": batch[0]["n"]}
+                    for c in batch:
+                        res.case({k: v for k, v in c.items() if not k.startswith("_")} if c["n"] % 211 == 0 else None)
+                    list(ex.map(one, batch))
+                    res.count("batches")
+                    healthy = lab.check_health(wit)
+                    if sq.alive() and not probe(f"b{bno}"):
+                        healthy = False
+                        res.violation("health-probe-failed", f"an ordinary GET through squid failed twice after batch {bno} (cases {batch[0]['n']}..{batch[-1]['n']}) although the process is alive: {sq.tail_log(600)}", wit)
+                    elif sq.alive():
+                        res.count("health_probes_ok")
+                    if not sq.alive():
+                        res.count("squid_restarts")
+                        sq.stop()
+                        sq.start(init=False)
+                        if not probe(f"r{bno}"):
+                            raise RuntimeError("squid does not serve after a restart: " + sq.tail_log())
+        finally:
+            fwd = {q.req_id for q in lab.org.requests if q.req_id and q.req_id.endswith((".c", ".o")) and q.req_id.split(".")[-2].isdigit()}
+            res.count("hostile_request_streams_with_a_forwarded_request", len({x for x in fwd if x.endswith(".c")}) + len({x for x in fwd if x.endswith(".o") and table.get("/c09/%s/%s" % tuple(x.split(".")[:2]), {}).get("side") == "both"}))
+            lab.finish()
+
+    # batches alternate between a squid that handles pipelined requests one at a time and one that reads ahead
+    # (pipeline_prefetch 3): hostile streams are full of pipelined requests and interim responses
+    for pf, par in ((0, 0), (3, 1)):
+        mine = [c for c in all_cases if (c["n"] // BATCH) % 2 == par]
+        if mine:
+            res.count(f"cases_with_pipeline_prefetch_{pf}", len(mine))
+            run_with(pf, mine)
+    cases = all_cases
     if not a.replay_data:
         cn = res.counters
         if cn.get("hostile_request_streams_with_a_forwarded_request", 0) < cn.get("hostile_request_streams", 0) // 10:
